@@ -13,6 +13,8 @@ Sites == {"literal", "shl", "shl-lhs", "shr", "div", "div-lhs", "mod", "mul", "a
           "seg-target-low", "seg-target-high", "loop-nested",
           "macro-recursion-untaken", "macro-mutual-untaken",
           "mixed-types", "mixed-types-insn", "macro-value", "seg-start-string",
+          "import-super", "import-as-super", "import-super-path",   \* `super' where an import expects a name of the imported file
+          "nested-defined", "macro-blocks-3", "macro-blocks-95", "macro-ifs-40",   \* depth that exists only after expansion: blocks x macro recursion
           "segblock-untaken", "segblock-untaken-own",          \* an untaken branch inside a `.segment' block inside an untaken branch / uninvoked macro, and code after it
           "deep-braces", "deep-parens", "long-chain", "nested-calls", "unclosed-parens"}      \* size, not value: recursion and backtracking          \* operands no pass can ever make sense of      \* recursion only through a branch that is not taken (the analysis mode visits it)
 NumericSites == {"literal", "shl", "shl-lhs", "shr", "div", "div-lhs", "mod", "mul", "add", "sub", "neg",
@@ -33,7 +35,8 @@ Ideal(c) ==
     [] c.site \in {"seg-target-low", "seg-target-high"} -> "diagnostic"
     [] c.site \in {"mixed-types", "mixed-types-insn", "macro-value", "seg-start-string"} -> "diagnostic"
     [] c.site \in {"seg-redefine", "seg-redefine-moved", "bank-redefine"} -> "diagnostic"
-    [] c.site \in {"nested-calls", "unclosed-parens"} -> "diagnostic"   \* one image cannot hold both definitions    \* never "nothing emitted, build succeeds"          \* code of a relocated segment outside $0000-$FFFF on its target side
+    [] c.site \in {"nested-calls", "unclosed-parens", "nested-defined", "macro-blocks-3", "macro-blocks-95", "macro-ifs-40"} -> "diagnostic"
+    [] c.site \in {"import-super", "import-as-super", "import-super-path"} -> "diagnostic"   \* one image cannot hold both definitions    \* never "nothing emitted, build succeeds"          \* code of a relocated segment outside $0000-$FFFF on its target side
     [] c.site = "align" /\ c.arg \in {"0", "-1", "-2^63"} -> "diagnostic"
     [] c.site \in {"div", "mod"} /\ c.arg = "0" -> "value-or-diagnostic"
     [] c.arg \in {"wide-dec", "wide-hex", "wide-bin"} -> "diagnostic"
